@@ -80,12 +80,32 @@ def run(prog, ctx):
         ctx.touch(s, g)
         rows += 1
         width, signed, kind = conv.GETTERS[gname]
-        call = query.unique_call(s, "asprintf")
-        args = call.call_args()
+        fcalls = [c for c in s.calls(("asprintf", "snprintf", "sprintf"))]
+        if len(fcalls) != 1:
+            ctx.inconclusive("V1", "%s formatter" % sname, s.where, "expected one asprintf/snprintf call, found %d" % len(fcalls))
+            continue
+        call = fcalls[0]
+        fname = call.j["callee"]
+        fidx = {"asprintf": 1, "snprintf": 2, "sprintf": 1}[fname]
+        args = call.call_args()[fidx - 1:]      # args[1] = format, args[2:] = values (same layout as asprintf)
         fmt = args[1].string_value()
         if fmt is None:
             ctx.inconclusive("V1", "%s format" % sname, call.where, "format is not a literal")
             continue
+        if fname != "asprintf":
+            # formatted through a buffer: it must hold the longest text of the type
+            from sa import buf as _buf
+            arrays, sites = _buf.analyse_fixed_arrays(prog, False)
+            mine = [x for x in sites if x.node is call]
+            if not mine:
+                ctx.inconclusive("V1", "%s formats into a buffer" % sname, call.where, "destination is not a fixed array; idiom not understood")
+            for x in mine:
+                if x.verdict == "ok":
+                    ctx.ok("V1", "%s: buffer holds the longest text" % sname, call.where, x.why)
+                else:
+                    ctx.fail("V1", "%s: buffer holds the longest text" % sname, call.where,
+                             "%s: the stored text of extreme values is cut (e.g. the last exponent digit of -DBL_MAX) and reads back as a "
+                             "different number" % x.why, key="fmt-buffer:%s" % sname)
         dirs = fmt_directives(fmt)
         if len(dirs) != 1 or fmt.strip() != fmt or not fmt.startswith("%"):
             ctx.fail("V1", "%s writes exactly one number" % sname, call.where, "format %r adds text around the number" % fmt,
@@ -142,6 +162,13 @@ def run(prog, ctx):
                          "%d significant digits < %d needed to round-trip every %s" % (pv, need, tname), key="prec:%s" % sname)
         # V3 getter routine
         gc = conv.strto_call(g)
+        if conv.uses_errno(g):
+            ok_e, why_e = conv.errno_reset_before(g, gc)
+            if ok_e:
+                ctx.ok("V3", "%s: errno cleared before the conversion" % gname, gc.where, why_e)
+            else:
+                ctx.fail("V3", "%s: errno cleared before the conversion" % gname, gc.where,
+                         why_e + ": a correctly stored value is refused after an unrelated earlier failure", key="errno-reset:%s" % gname)
         cname = gc.j["callee"]
         cw, cs = conv.STRTO[cname]
         if kind == "int":
